@@ -274,6 +274,96 @@ C06_MinRuntime ==
          => ActiveAfter(j) >= J(j).min
 
 (***************************************************************************)
+(* C07 - reclaim protects deserved quota and keeps the reclaimer within its *)
+(* fair share. Per reclaim statement; queues are levelled at the point     *)
+(* where the victim's and the reclaimer's paths diverge. Allocation of a   *)
+(* queue = its subtree's charged pods (recomputed, not the scheduler's).   *)
+(* Fair shares come from the session (their contract is C09).              *)
+(***************************************************************************)
+ReclaimEvicts == {i \in Dec : EvictOK(i) /\ D[i].mdact = "reclaim" /\ D[i].stmt # 0 /\ D[i].pre \in Jobs}
+FirstOfStmt(s) == Min({i \in Dec : D[i].stmt = s /\ D[i].act = "reclaim"})
+LastOfStmt(s) == Max({i \in Dec : D[i].stmt = s /\ D[i].act = "reclaim"})
+StepDownQ(vq, pq) ==
+  LET common == Ancestors(vq) \cap Ancestors(pq)
+      cands  == {x \in Ancestors(vq) \ common : Q(x).parent \in common \cup {0}}
+  IN IF cands = {} THEN vq ELSE CHOOSE x \in cands : TRUE
+WithinDeserved(q, i) ==
+  /\ (Q(q).gq = -1 \/ QGpu(q, i, FALSE) <= Q(q).gq)
+  /\ (Q(q).cq = -1 \/ QCpu(q, i, FALSE) <= Q(q).cq)
+  /\ (Q(q).mq = -1 \/ QMem(q, i, FALSE) <= Q(q).mq)
+WithinFairShare(q, i) ==
+  /\ QGpu(q, i, FALSE) <= qi.q[q].fsG + 1
+  /\ QCpu(q, i, FALSE) <= qi.q[q].fsC + 1
+  /\ QMem(q, i, FALSE) <= qi.q[q].fsM + 1
+\* resources are taken only from (levelled) queues above their deserved quota or above their fair
+\* share in some resource at the moment the statement starts taking from them
+C07_NotWithinQuota ==
+  (Quiet /\ ~failed) => \A i \in ReclaimEvicts :
+     LET vq == J(JobOf(D[i].p)).queue
+         rq == J(D[i].pre).queue
+         x  == StepDownQ(vq, rq)
+         b  == FirstOfStmt(D[i].stmt) - 1
+     IN (vq # rq /\ qi # <<>>) => ~(WithinDeserved(x, b) /\ WithinFairShare(x, b))
+\* the reclaiming (leaf) queue stays within its fair share after receiving the resources
+\* (tolerance of one milli-unit / one MB for the float fair shares)
+C07_ReclaimerWithinFairShare ==
+  (Quiet /\ ~failed /\ qi # <<>>) => \A i \in ReclaimEvicts :
+     LET rq == J(D[i].pre).queue
+         e  == LastOfStmt(D[i].stmt)
+     IN /\ QGpu(rq, e, FALSE) <= qi.q[rq].fsG + 1
+        /\ QCpu(rq, e, FALSE) <= qi.q[rq].fsC + 1
+        /\ QMem(rq, e, FALSE) <= qi.q[rq].fsM + 1
+
+(***************************************************************************)
+(* C05 - work conservation, judged right after the allocate action: no     *)
+(* ready pending job that was not placed fits entirely on idle capacity    *)
+(* (capacity not held by occupants, binds or nominations) while respecting *)
+(* the limits and non-preemptible quotas of its queue chain. Restricted to *)
+(* unconstrained jobs of non-sharing pods whose pods are all pending.      *)
+(***************************************************************************)
+JustAfterAllocate == doneActs = {"allocate"} /\ action = ""
+PipedOn(n) == {i \in Dec : Piped(i) /\ D[i].n = n}
+IdleCpu(n) == N(n).cpu - CpuUsed(n) - Sum(PipedOn(n), LAMBDA i : P(D[i].p).cpu)
+IdleMem(n) == N(n).mem - MemUsed(n) - Sum(PipedOn(n), LAMBDA i : P(D[i].p).mem)
+IdleSlots(n) == N(n).pods - SlotsUsed(n) - Cardinality(PipedOn(n))
+                - Cardinality((UNION {SeqToSet(D[i].groups) : i \in PipedOn(n)}) \ (GroupsInUse(n) \cup ResvGroups(n)))
+IdleGpus(n) == N(n).gpus - DevicesUsed(n) - Sum(PipedOn(n), LAMBDA i : Whole(D[i].p))
+               - Cardinality((UNION {SeqToSet(D[i].groups) : i \in PipedOn(n)}) \ GroupsInUse(n))
+Unconstrained(p) == /\ DOMAIN P(p).sel = {} /\ DOMAIN P(p).affIn = {} /\ DOMAIN P(p).affNot = {}
+                    /\ Len(P(p).podAff) = 0 /\ Len(P(p).podAnt) = 0
+UsableNode(n) == N(n).ready = 1 /\ N(n).unsched = 0 /\ Len(N(n).taints) = 0
+\* the pods the scheduler has to place to start job j: its first `min` pods (identical template)
+FirstK(S_, k) == {p \in S_ : Cardinality({x \in S_ : x < p}) < k}
+TasksOf(j) == FirstK(PodsOf(j), J(j).min)
+Untouched(j) == \A p \in PodsOf(j) : ~\E i \in Dec : D[i].p = p
+QueueRulesAllow(j) ==
+  LET T == TasksOf(j)
+      g == Sum(T, GpuMilli)  c == Sum(T, LAMBDA p : P(p).cpu)  m == Sum(T, LAMBDA p : P(p).mem)
+      e == Len(D)
+  IN \A q \in Ancestors(J(j).queue) :
+       /\ (Q(q).gl = -1 \/ g = 0 \/ QGpu(q, e, FALSE) + g <= Q(q).gl)
+       /\ (Q(q).cl = -1 \/ c = 0 \/ QCpu(q, e, FALSE) + c <= Q(q).cl)
+       /\ (Q(q).ml = -1 \/ m = 0 \/ QMem(q, e, FALSE) + m <= Q(q).ml)
+       /\ (J(j).preempt = 0 =>
+             /\ (Q(q).gq = -1 \/ g = 0 \/ QGpu(q, e, TRUE) + g <= Q(q).gq)
+             /\ (Q(q).cq = -1 \/ c = 0 \/ QCpu(q, e, TRUE) + c <= Q(q).cq)
+             /\ (Q(q).mq = -1 \/ m = 0 \/ QMem(q, e, TRUE) + m <= Q(q).mq))
+FitsIdle(j) ==
+  LET T == TasksOf(j)  UN == {n \in Nodes : UsableNode(n)} IN
+  UN # {} /\ \E f \in [T -> UN] : \A n \in UN :
+     LET here == {p \in T : f[p] = n} IN
+       /\ Sum(here, LAMBDA p : P(p).cpu) <= IdleCpu(n)
+       /\ Sum(here, LAMBDA p : P(p).mem) <= IdleMem(n)
+       /\ Cardinality(here) <= IdleSlots(n)
+       /\ Sum(here, Whole) <= IdleGpus(n)
+C05_WorkConserving ==
+  (JustAfterAllocate /\ ~failed) => \A j \in Jobs :
+     (/\ AllPending(j) /\ Untouched(j) /\ Cardinality(PodsOf(j)) >= J(j).min /\ J(j).min >= 1
+      /\ \A p \in PodsOf(j) : ~IsSharing(p) /\ Unconstrained(p)
+      /\ QueueRulesAllow(j))
+     => ~FitsIdle(j)
+
+(***************************************************************************)
 (* C13 (as observable on the Cache calls of real cycles): committing emits  *)
 (* each pod at most once per call kind and statement.                      *)
 (***************************************************************************)
